@@ -194,9 +194,9 @@ def audit_axioms(module, theorems):
     log = o + e
     res = {t: None for t in theorems}
     # outputs:  'X' depends on axioms: [a, b]    |   'X' does not depend on any axioms
-    for m in re.finditer(r"'([^']+)' depends on axioms: \[([^\]]*)\]", log, re.S):
+    for m in re.finditer(r"'(\S+)' depends on axioms: \[([^\]]*)\]", log, re.S):
         res[m.group(1)] = [a.strip() for a in m.group(2).replace("\n", " ").split(",") if a.strip()]
-    for m in re.finditer(r"'([^']+)' does not depend on any axioms", log):
+    for m in re.finditer(r"'(\S+)' does not depend on any axioms", log):
         res[m.group(1)] = []
     return res, log
 
